@@ -51,6 +51,11 @@ def plan(tier):
 
 
 NAMES = ('a', 'b', 'i', 'zz', 'k1', 'k2', 'k3')
+RENAME = {}  # name family in force: the grammar's one-letter names replaced by related names of several letters
+
+
+def RN(n):
+    return RENAME.get(n, n)
 
 
 def _call(f, *args):
@@ -88,7 +93,7 @@ def check_object(obj, what, r=None):
             again = _call(obj.external_references)
             if again[0] != 'ok' or set(again[1]) != exp:
                 bad('external_references', f'second call after the caller modified the first result: expected {sorted(exp)}, got {again}')
-        for name in NAMES:
+        for name in NAMES + tuple(RENAME.values()) + (tuple(''.join(RENAME.values())) if RENAME else ()):
             got = _call(obj.contains_reference, name)
             exp = W.occurs_var(obj, name)
             if got[0] != 'ok' or bool(got[1]) != exp:
@@ -98,7 +103,7 @@ def check_object(obj, what, r=None):
         if got[0] != 'ok' or bool(got[1]) != exp:
             bad('contains_self_reference', f'expected {exp}, got {got}')
     if is_expr:
-        for name in NAMES:
+        for name in NAMES + tuple(RENAME.values()):
             got = _call(obj.contains_definition, name)
             exp = W.binds(obj, name)
             if got[0] != 'ok' or bool(got[1]) != exp:
@@ -196,6 +201,10 @@ def objects_for(t, sort, r=None):
     """Real objects (with a label) for one abstract term: expression, predicate,
     events, property; through the parser and through the API."""
     out = []
+    if RENAME:
+        from hplmc.checks.c10 import rename_vars
+
+        t = rename_vars(t, RENAME)
     try:
         text = absyn.expr_text(t)
     except ValueError:
@@ -219,11 +228,11 @@ def objects_for(t, sort, r=None):
             # so free references are possible in every slot
             import hpl.ast as A
 
-            for alias in (None, 'a', 'zz'):
+            for alias in (None, RN('a'), 'zz'):
                 try:
                     e1 = A.HplSimpleEvent.publish('t', predicate=p, alias=alias)
                     out.append((f'api-event t as {alias} {{ {text} }}', e1))
-                    e2 = A.HplEventDisjunction(A.HplSimpleEvent.publish('u', alias='b'), A.HplEventDisjunction(e1, A.HplSimpleEvent.publish('w')))
+                    e2 = A.HplEventDisjunction(A.HplSimpleEvent.publish('u', alias=RN('b')), A.HplEventDisjunction(e1, A.HplSimpleEvent.publish('w')))
                     out.append((f'api-disjunction (u as b or (t as {alias} {{ {text} }} or w))', e2))
                     # alternatives that each have references of their own, in both orders
                     q1 = impl.parser('pred').parse('{ x > @k1.f }')
@@ -235,8 +244,8 @@ def objects_for(t, sort, r=None):
                 except Exception as ex:  # noqa: BLE001
                     if r is not None:
                         r.notes['api event rejected: ' + type(ex).__name__] += 1
-        for ev_text in (f't {{ {text} }}', f't as a {{ {text} }}', f'( t as a {{ {text} }} or u as b or w )'):
-            ptext = f'after s as b: no {ev_text}'
+        for ev_text in (f't {{ {text} }}', f't as {RN("a")} {{ {text} }}', f'( t as {RN("a")} {{ {text} }} or u as {RN("b")} or w )'):
+            ptext = f'after s as {RN("b")}: no {ev_text}'
             st, prop = impl.try_parse('prop', ptext)
             if st == 'ok':
                 out.append((f'event {ev_text}', prop.pattern.behaviour))
@@ -349,6 +358,16 @@ def run(unit):
             r.count('validated')
         if i % 3001 == 0 and objs:
             r.sample({'object': objs[-1][0]})
+        if n <= 4:
+            # name family: related names of several letters (item / it / tem: prefix, suffix, shared characters)
+            RENAME.update({'a': 'item', 'b': 'it', 'i': 'tem'})
+            try:
+                for label, o in objects_for(t, sort, r):
+                    r.count('states')
+                    for kind, detail in check_object(o, label, r):
+                        r.violation(kind + ' [names with several letters]', {'term': t, 'sort': sort, 'label': label.split(' ')[0], 'rename': dict(RENAME)}, detail, size=absyn.size(t))
+            finally:
+                RENAME.clear()
     return r
 
 
@@ -359,6 +378,8 @@ def replay(w):
     if 'deep' in w:
         return [{'sig': v['sig'], 'detail': v['detail']} for v in run(('deep',)).violations]
     if 'term' in w:
+        RENAME.clear()
+        RENAME.update(w.get('rename') or {})
         for label, o in objects_for(_detuple(w['term']), w['sort']):
             out += [{'sig': k, 'detail': d} for k, d in check_object(o, label)]
             for dlabel, d in derived_objects(o, label):
@@ -372,7 +393,7 @@ def replay(w):
 def describe(tier):
     b = bounds(tier)
     return {
-        'rule': f"every Bool/Num term with <= {b['nodes']} nodes over atoms x @a @a.f @b.f m.f 1 p @a.p xs @a.xs with + ** = < and implies not unary-minus abs len sum max int(bool), sets (1-3), ranges, indexing xs[..], inclusion, forall/exists binding a or i over arrays/sets/ranges: markers therefore occur in every child slot of every expression node kind; each accepted term is taken as expression (parser and API), predicate, event without alias / with alias a / zz, 3-wide event disjunction, pattern and property; plus 14 texts that put quantifiers and markers into slots the node bound does not reach (a quantifier inside another quantifier's domain, inside an index, a function argument, a set element; markers below several accessors; one name free and bound), every sub-object of which is queried; plus a family of 20 multi-event properties and a specification for scope/pattern/property/specification-level iterate() and aliases(). Every queried expression / predicate / event is then copied (replace_var_reference, replace_self_reference, negate, but) and the copy is queried too (call sequences of depth 2). Containers returned by external_references() / aliases() are modified by the harness and the query is repeated. A state = one real object queried; a transition = one group of query calls on it.",
+        'rule': f"every Bool/Num term with <= {b['nodes']} nodes over atoms x @a @a.f @b.f m.f 1 p @a.p xs @a.xs with + ** = < and implies not unary-minus abs len sum max int(bool), sets (1-3), ranges, indexing xs[..], inclusion, forall/exists binding a or i over arrays/sets/ranges: markers therefore occur in every child slot of every expression node kind; each accepted term is taken as expression (parser and API), predicate, event without alias / with alias a / zz, 3-wide event disjunction, pattern and property; plus 14 texts that put quantifiers and markers into slots the node bound does not reach (a quantifier inside another quantifier's domain, inside an index, a function argument, a set element; markers below several accessors; one name free and bound), every sub-object of which is queried; plus a family of 20 multi-event properties and a specification for scope/pattern/property/specification-level iterate() and aliases(). Every queried expression / predicate / event is then copied (replace_var_reference, replace_self_reference, negate, but) and the copy is queried too (call sequences of depth 2). Terms with <= 4 nodes are repeated with the one-letter names replaced by item / it / tem (prefix, suffix, shared characters; the single characters are queried too). Containers returned by external_references() / aliases() are modified by the harness and the query is repeated. A state = one real object queried; a transition = one group of query calls on it.",
         'bounds': b,
         'exhaustive': True,
         'assumptions': ['attrs.fields() order is declaration order; the generic walk treats every AST-valued field as a child'],
